@@ -52,15 +52,17 @@ func pkgTwinFingerprints(prog *Program, relA, relB string) (keys []string, fa, f
 
 // pkgTwinAccepted: key "relA=relB:func" -> {only in A, only in B, reason}.
 var pkgTwinAccepted = map[string][3]string{
-	"oj=sen:Writer.colorArray": {"if 0 < j", "", "JSON writes a comma between elements, SEN writes no separator in the coloured form"},
-	"oj=sen:appendObject":      {"empty := true | empty = false", "", "the flag steers the comma-to-newline overwrite; the indented SEN writer appends no member separator"},
-	"oj=sen:appendSortObject":  {"empty := true | empty = false", "", "as appendObject"},
-	"oj=sen:tightArray":        {"", "space := false | space = false | space = true", "SEN separates elements by a space only where the next token needs one (needSep); JSON always writes a comma"},
+	"oj=sen:Writer.colorArray":  {"if 0 < j", "if 0 < j && len(cs) == 0", "JSON writes a comma between elements; the coloured SEN form separates them by the indentation string, or by one space when there is none"},
+	"oj=sen:Writer.colorObject": {"", "if len(cs) == 0  (x2)", "as colorArray: SEN members are separated by the indentation string or one space, JSON members by a comma"},
+	"oj=sen:appendObject":       {"empty := true | empty = false", "", "the flag steers the comma-to-newline overwrite; the indented SEN writer appends no member separator"},
+	"oj=sen:appendSortObject":   {"empty := true | empty = false", "", "as appendObject"},
+	"oj=sen:tightArray":         {"", "space := false | space = false | space = true", "SEN separates elements by a space only where the next token needs one (needSep); JSON always writes a comma"},
 }
 
 // pkgTwinSkip: same-named functions that are not copies of each other.
 var pkgTwinSkip = map[string]string{
 	"Parser.parseBuffer":       "the SEN and JSON dispatch loops read different languages; compared by Engine A",
+	"Parser.add":               "the two parsers keep different build stacks (oj tests the stack depth, sen the container markers); both are followed by Engine A",
 	"Tokenizer.tokenizeBuffer": "as Parser.parseBuffer",
 }
 
